@@ -11,7 +11,7 @@ F = "ppci/build/tasks.py"
 def run(ctx):
     ctx.rule("C34.R1", "loop-detection set holds exactly the current DFS path (add paired with remove on normal exit, or a fresh set passed down)", floor=1)
     ctx.rule("C34.R2", "execution order is a dependency post-order, not a comparison sort over the partial order", floor=2)
-    ctx.rule("C34.R3", "loop check precedes execution; run loop iterates the ordered list once", floor=2)
+    ctx.rule("C34.R3", "loop check precedes execution; run loop iterates the ordered list once", floor=3)
 
     dfs = ctx.fn(F, "Project.dfs")
     site = F + ":Project.dfs"
@@ -98,6 +98,16 @@ def run(ctx):
         chk_loop = [x for x in _anc(chk[0]) if isinstance(x, ast.For)]
         ok = bool(chk_loop) and all(cfg.must_pass(cfg.stmt_of(r), lambda n: n is chk_loop[0]) for r in runs)
     ctx.ob("C34.R3", site, "every requested target is checked for loops before the first task runs", ok, construct="check-before-run")
+    if chk:
+        # the loop check covers what will run - the requested targets - and nothing else: a cycle among targets
+        # that were not requested (and are not reachable from them) must not stop the build
+        chk_loop = [x for x in _anc(chk[0]) if isinstance(x, ast.For)]
+        visits = [c for c in ast.walk(run_fn) if isinstance(c, ast.Call) and isinstance(c.func, ast.Name) and any(isinstance(f, ast.FunctionDef) and f.name == c.func.id for f in ast.walk(run_fn) if f is not run_fn)
+                  and not any(isinstance(a, ast.FunctionDef) and a is not run_fn for a in _anc(c))]
+        vis_loop = [x for v in visits for x in _anc(v) if isinstance(x, ast.For)]
+        ok = bool(chk_loop) and bool(vis_loop) and norm(chk_loop[0].iter) == norm(vis_loop[0].iter) and norm(chk[0].args[0]) == norm(chk_loop[0].target) and "project." not in norm(chk_loop[0].iter)
+        ctx.ob("C34.R3", site, "the loop check starts from exactly the requested targets (the same list the execution order is computed from), not from every target of the project", ok, construct="check-requested-only",
+               node=chk_loop[0] if chk_loop else chk[0], detail="checked: %s; ordered from: %s" % (norm(chk_loop[0].iter) if chk_loop else "?", norm(vis_loop[0].iter) if vis_loop else "?"))
     if runs:
         fors = [x for x in _anc(runs[0]) if isinstance(x, ast.For)]
         outer = fors[-1] if fors else None
